@@ -22,10 +22,10 @@ CLAIMED = {
    text="Every call on a shared path of every fault-free execution (operation x front-end x pre-state) is made to return, one at a time, exactly what a concurrent unlink / publish / mkdir by another participant causes (ENOENT, EEXIST): no error or panic may surface, the following lookup neither; model and implementation agree under the same injection. In addition the real interleavings of the concurrent families (gate mode, every single context-switch point) must end every operation without error.",
    ref="DESIGN.md section 6 C05", technique="lost-race injection + systematic schedule exploration, both replayed on the Rocq model (general theorem: in progress)",
    note="Cache directories are assumed never removed; temp files of live operations younger than the one-hour limit."),
- "C06": dict(category="exploration",
-   text="Frozen-peer exploration: in the concurrent families one participant is suspended forever after every number of its filesystem calls (after progress of the others as well); every other participant must then complete all its operations alone, without error, within the step bounds (get/touch/set/put without maintenance: exactly the budgets of the kernel-checked theorems C20_*_calls, which hold for arbitrary call results and hence arbitrary interference; maintenance: linear in the listed entries), and no participant may issue a locking call. Kernel-checked: pool_wp lifts every all-environment bound to every participant of every pool under every schedule (C06_bounded_in_any_pool), and the model's call vocabulary has no lock.",
+ "C06": dict(
+   text="Frozen-peer exploration: in the concurrent families one participant is suspended forever after every number of its filesystem calls (after progress of the others as well); every other participant must then complete all its operations alone, without error, within the step bounds (get/touch/set/put without maintenance: exactly the budgets of the kernel-checked theorems C20_*_calls, which hold for arbitrary call results and hence arbitrary interference; maintenance: linear in the listed entries), and no participant may issue a locking call. Kernel-checked over the interleaving semantics of the model (Conc/Pool.v), for every pool, every schedule and every filesystem state: scheduling one participant never touches another (nobody waits), a scheduled participant's pending call always executes, every program run alone terminates (C06_alone_terminates), get/touch/set/put have issued at most their configuration-only budget when they complete in ANY pool under ANY schedule (pool_wp lifts the all-environment bounds of C20), and the call vocabulary has no lock.",
    ref="DESIGN.md section 6 C06", technique="Rocq proof (all-environment weakest preconditions lifted to interleavings) for the step bounds + frozen-peer schedule exploration for progress",
-   note="Successful completion with frozen peers is established by exploration, the step bounds and lock-freedom by theorem + trace tie."),
+   note="That an operation run alone also SUCCEEDS (returns no error) from every reachable state is established by the frozen-peer exploration, not by a theorem; the step bound of maintenance (linear in the entries) is checked on the implementation's traces, the theorem covers get/touch/set/put."),
  "C08": dict(
    text="Kernel-checked theorems over the executable planner model for every input and capacity (count, partition, equality with the classical clock queue, unreachable assertion); the model is tied to the code by exhaustive (n<=5 quick / n<=7 thorough, 4 ranks, 2 flags, all capacities) and random large-input differential runs through the public Update::new; a proved-sound verdict procedure (valid_plan) decides outputs that differ only in tie order.",
    ref="DESIGN.md section 6 C08", technique="Rocq proof (induction over the sorted queue) + model/implementation correspondence via extracted OCaml",
